@@ -548,3 +548,13 @@ PROP = with_src(C02(), share=6, functions=["_parse_letter_version", "Version.__s
                  "Src.Version.getters_translated", "Src.Version.epoch_eq_model", "Src.Version.release_eq_model",
                  "Src.Version.pre_eq_model", "Src.Version.post_eq_model", "Src.Version.dev_eq_model",
                  "Src.Version.local_eq_model"])
+# x7: the remaining read-only members of Version — `.major/.minor/.micro`, `.is_devrelease`, `__repr__` — the module-level
+# `parse` and `_parse_local_version` (split at the swept class of `_local_version_separators`), against
+# Ver.major/minor/micro/isDev/repr, V.parse (= V.scan) and V.parseLocalVersion
+PROP = with_src(PROP, share=6,
+                functions=["Version.major", "Version.minor", "Version.micro", "Version.is_devrelease", "Version.__repr__",
+                           "parse", "_parse_local_version"],
+                module=["PkgProofs.Props.Src.X7Version"],
+                theorems=["Src.x7_version_translated", "Src.Version.major_eq_model", "Src.Version.minor_eq_model",
+                          "Src.Version.micro_eq_model", "Src.Version.is_devrelease_eq_model", "Src.Version.__repr___eq_model",
+                          "Src.parse_eq_model", "Src._parse_local_version_eq_model", "Src.localPart_eq_localSeg"])
